@@ -12,21 +12,8 @@ import GoPipeline.Lemmas.Parse13
 namespace GoPipeline.Parse
 open GoPipeline GoPipeline.Pipe GoPipeline.Marshal
 
-/-- The step sequence of a decoded document: a bare list, or the `steps` key of a mapping
-    (`null`/absent ⇒ no entries). -/
-def entries : Val → Option (List Val)
-  | .seq xs => some xs
-  | .omap m =>
-    match m.lookup "steps" with
-    | none => some []
-    | some .null => some []
-    | some (.seq xs) => some xs
-    | some _ => none
-  | _ => none
-
-def isUnknown : Step → Bool
-  | .unknown _ => true
-  | _ => false
+/- `entries` (the step sequence of a decoded document) and `isUnknown` are defined in
+   `GoPipeline/Lemmas/Parse13.lean`, so that the lemmas can mention them. -/
 
 /-- A usable result has a non-nil step list. -/
 theorem C13_steps_non_nil (v : Val) (p : Pipeline) (ws : List Warn) (h : parsePipeline v = .ok (p, ws)) :
@@ -74,6 +61,28 @@ theorem C13_marshal_succeeds (v : Val) (p : Pipeline) (ws : List Warn) (h : pars
 
 /-! Non-vacuity -/
 example : ∃ p, parsePipeline (.omap [("x", .int 1), ("steps", .seq [.str "wait", .omap [("foo", .str "bar")], .omap [("command", .seq [.omap []])]])])
-    = .ok (p, [.inferFail, .fellBack]) := ⟨_, by rfl⟩
+    = .ok (p, [.inferFail, .fellBack]) := by
+  -- `parseStep`/`parseSteps` are compiled by well-founded recursion (irreducible), so the evaluation
+  -- goes through their equation lemmas instead of `rfl`.
+  have h1 : parseStep stepFuel (.str "wait") = .ok (.wait "wait" none, []) := by
+    rw [stepFuel_succ, parseStep.eq_2]; rfl
+  have h2 : parseStep stepFuel (.omap [("foo", .str "bar")]) =
+      .ok (.unknown (.omap [("foo", .str "bar")]), [.inferFail]) := by
+    rw [stepFuel_succ, parseStep.eq_3]; rfl
+  have h3 : parseStep stepFuel (.omap [("command", .seq [.omap []])]) =
+      .ok (.unknown (.omap [("command", .seq [.omap []])]), [.fellBack]) := by
+    rw [stepFuel_succ, parseStep.eq_3]; rfl
+  have hs : parseSteps stepFuel [.str "wait", .omap [("foo", .str "bar")], .omap [("command", .seq [.omap []])]] =
+      .ok ([.wait "wait" none, .unknown (.omap [("foo", .str "bar")]), .unknown (.omap [("command", .seq [.omap []])])],
+           [.inferFail, .fellBack]) := by
+    rw [parseSteps.eq_2, h1, parseSteps.eq_2, h2, parseSteps.eq_2, h3, parseSteps.eq_1]; rfl
+  constructor
+  unfold parsePipeline
+  simp only [fieldOf_pipeline_steps]
+  rw [show List.lookup "steps" [("x", Val.int 1), ("steps", Val.seq [.str "wait", .omap [("foo", .str "bar")],
+        .omap [("command", .seq [.omap []])]])] =
+      some (Val.seq [.str "wait", .omap [("foo", .str "bar")], .omap [("command", .seq [.omap []])]]) from rfl]
+  simp only [hs]
+  rfl
 
 end GoPipeline.Parse
